@@ -1,17 +1,20 @@
 #!/bin/bash
-# seedrun.sh <seed-dir> <property>... : apply a seeded change to /repo, run the checks, undo it.
+# seedrun.sh <seed-dir> <property>... : apply a seeded change to the repository ($VERIF_REPO, default /repo),
+# run the checks of this /verif tree ($VERIF_ROOT, default: where this script lives), undo the change.
+V="${VERIF_ROOT:-$(cd "$(dirname "${BASH_SOURCE[0]}")/.." && pwd)}"; export VERIF_ROOT="$V"
+R="${VERIF_REPO:-/repo}"; export VERIF_REPO="$R"
 sd="$1"; shift
-cd /repo || exit 2
-git apply --check "$sd/patch.diff" 2>/dev/null || { echo "SEED $sd: patch does not apply to current /repo"; exit 3; }
+cd "$R" || exit 2
+git apply --check "$sd/patch.diff" 2>/dev/null || { echo "SEED $sd: patch does not apply to current $R"; exit 3; }
 git apply "$sd/patch.diff"
 # evidence and generated files of a mutated run must never be left behind (evidence is committed from clean-tree runs only)
-rm -rf /tmp/verif_seed_keep; mkdir -p /tmp/verif_seed_keep; cp -a /verif/evidence /verif/coq/Gen /tmp/verif_seed_keep/
+keep=$(mktemp -d /tmp/verif_seed_keep.XXXXXX); cp -a "$V/evidence" "$V/coq/Gen" "$keep"/
 for p in "$@"; do
-  out=$(cd /verif && timeout 1800 python3 harness/check.py $p 2>&1); rc=$?
+  out=$(cd "$V" && timeout 1800 python3 harness/check.py $p 2>&1); rc=$?
   echo "SEED $(basename $sd) check $p: exit=$rc $(echo "$out" | grep -c '^VIOLATION') violation line(s)"
   echo "$out" | grep -A1 "^VIOLATION" | grep "what:" | head -3
 done
-git checkout -- . 
-rm -rf /verif/evidence /verif/coq/Gen; cp -a /tmp/verif_seed_keep/evidence /verif/evidence; cp -a /tmp/verif_seed_keep/Gen /verif/coq/Gen; rm -rf /tmp/verif_seed_keep
+git apply -R "$sd/patch.diff" || git checkout -- .
+rm -rf "$V/evidence" "$V/coq/Gen"; cp -a "$keep/evidence" "$V/evidence"; cp -a "$keep/Gen" "$V/coq/Gen"; rm -rf "$keep"
 # the restored files carry their old mtimes: make must not keep .vo files compiled from the mutated tree
-touch /verif/coq/Gen/*.v
+touch "$V"/coq/Gen/*.v
